@@ -105,6 +105,18 @@ Definition matches (variant : N) (v : verdict) : bool :=
 Definition verdict_ok_for (variant : N) (v : verdict) : bool := spec v && matches variant v.
 Definition verdict_ok (v : verdict) : bool := verdict_ok_for 0 v.
 
+(** Sources that are not regular files with a truthful size — a /proc file (stat size 0, content on read) and a
+    FIFO fed by a writer — are outside the file-system model ([File c] has exactly the bytes [c] and its size).
+    They are judged by the specification on the observed outcome only, no model comparison:
+    srckind 1 (/proc file, CopyFile only): the whole CopyFile clause; srckind 2 (FIFO: reading consumes the
+    source, so only the destination clause): nil => the destination holds the bytes the writer fed; third
+    party files intact in both. *)
+Definition spec_special (srckind op kind ok srcp srco dsto third : N) : bool :=
+  if srckind =? 1 then
+    spec_ok (nz op) (kind_of_N kind) false
+      {| o_ok := nz ok; o_src_present := nz srcp; o_src_orig := nz srco; o_dst_orig := nz dsto; o_third_ok := nz third |}
+  else nz third && (if nz ok then nz dsto else true).
+
 (** the outcome the model computes, as numbers (for the driver's messages) *)
 Definition model_fields_for (variant op kind otherdev srcmissing nonempty : N) : list bool :=
   let o := model_outcome_v ((variant =? 1) || (variant =? 3)) (2 <=? variant) (nz op) (kind_of_N kind) (nz otherdev) (nz srcmissing) (nz nonempty) in
